@@ -10,6 +10,16 @@ NOTE = ("Trusted: Coq 8.16.1 kernel (vm_compute, no native_compute); no axioms d
         "tools/gen_facts.py for tables; glibc and the file system are oracles (DESIGN.md section 8).")
 
 CLAIMS = {
+ "C02": dict(
+   text=("Theorem C02_parse: for every delimiter set of each of the four classes and every comment set (dl_ok/cm_ok), and every "
+         "well-formed list of lines of the conventional grammar (blank, comment with arbitrary text, section, key line with "
+         "optional blanks/quotes/trailing comment, continuation lines; unbounded number and length), the model of read_file on "
+         "the rendered bytes succeeds and yields EXACTLY the expected entries (group, key, value incl. NULL vs empty, both "
+         "comments, line, quote flag), the sections in order of first appearance and the line count. C02_line (per line, any "
+         "state), C02_sections_order, C02_first_definition. Proved by per-line lemmas for each class and induction over the "
+         "lines. Tie: the implementation's dump and getters on rendered files against the expected configuration and the model."),
+   technique="Coq proof (line lemmas per delimiter class + induction over lines) + differential correspondence on grammar-generated files",
+   ref="5.1, 6 (C02)"),
  "C03": dict(
    text=("Theorems C03_lookup (the visible value of every (section,key) is the override's if it defines the key, else the "
          "base's), C03_complete, C03_nothing_else, C03_section (per section: base keys in base order with overridden values, "
